@@ -117,9 +117,23 @@ class ListV(object):
         return 'List%r' % (self.cells,)
 
 
+class TupleV(object):
+    """a tuple of abstract values (several results returned by a helper)"""
+    def __init__(self, items):
+        self.items = list(items)
+
+    def __eq__(self, o):
+        return isinstance(o, TupleV) and len(o.items) == len(self.items) and all(_same(a, b) for a, b in zip(self.items, o.items))
+
+    def __repr__(self):
+        return 'Tuple%r' % (self.items,)
+
+
 def expr_of(v):
     if isinstance(v, ast.AST):
         return v
+    if isinstance(v, TupleV):
+        return ast.Tuple(elts=[expr_of(x) for x in v.items], ctx=ast.Load())
     if isinstance(v, Sym):
         return v.expr
     if isinstance(v, NoneV):
@@ -208,6 +222,8 @@ class Interp(object):
             return Sym(e)
         if isinstance(e, ast.List):
             return ListV([One(self.eval(x, st)) for x in e.elts])
+        if isinstance(e, ast.Tuple) and not any(isinstance(x, ast.Starred) for x in e.elts):
+            return TupleV([self.eval(x, st) for x in e.elts])
         if isinstance(e, ast.BinOp) and isinstance(e.op, ast.Add):
             a, b = self.eval(e.left, st), self.eval(e.right, st)
             if isinstance(a, ListV) and isinstance(b, ListV):
@@ -414,6 +430,10 @@ class Interp(object):
         if isinstance(t, ast.Name):
             st.env[t.id] = v.copy() if isinstance(v, ListV) else v
         elif isinstance(t, (ast.Tuple, ast.List)):
+            if isinstance(v, TupleV) and len(v.items) == len(t.elts) and not any(isinstance(x, ast.Starred) for x in t.elts):
+                for x, item in zip(t.elts, v.items):
+                    self._assign(x, item, st)
+                return
             for i, x in enumerate(t.elts):
                 if isinstance(x, ast.Name):
                     st.env[x.id] = Sym(ast.Name(id=x.id, ctx=ast.Load()))
@@ -427,6 +447,22 @@ class Interp(object):
             if obj in st.sink_names and meth == 'append' and len(c.args) == 1:
                 v = self.eval(c.args[0], st)
                 self.sinks.append(Sink(s, v.copy() if isinstance(v, ListV) else v, path, st.func))
+                return
+            if obj in st.sink_names and meth == 'extend' and len(c.args) == 1:
+                # rows collected by a helper: each (possibly repeated) element is a row of the frame
+                v = self.eval(c.args[0], st)
+                if isinstance(v, ListV):
+                    for cell in v.cells:
+                        if isinstance(cell, Many):
+                            if self.scn.get(cell.base) in (NONE, EMPTY):
+                                continue
+                            row = cell.template
+                        else:
+                            row = cell.value
+                        self.sinks.append(Sink(s, row.copy() if isinstance(row, ListV) else Unknown('extend with rows that are not lists'),
+                                               path, st.func))
+                    return
+                self.sinks.append(Sink(s, Unknown('extend on the row list with an opaque value'), path, st.func))
                 return
             if obj in st.sink_names and meth in ('extend', 'insert'):
                 self.sinks.append(Sink(s, Unknown('%s on the row list' % meth), path, st.func))
@@ -579,6 +615,8 @@ def _eligible(e):
 def _join(a, b):
     if isinstance(a, ListV) and isinstance(b, ListV) and a == b:
         return a
+    if isinstance(a, TupleV) and isinstance(b, TupleV) and len(a.items) == len(b.items):
+        return TupleV([_join(x, y) for x, y in zip(a.items, b.items)])
     if isinstance(a, Sym) and isinstance(b, Sym) and a == b:
         return a
     if isinstance(a, NoneV) and isinstance(b, NoneV):
@@ -658,6 +696,10 @@ class _State(object):
                         old.cells.append(c)
                     elif isinstance(c, One) and not base.startswith('<') and var is not None:
                         old.cells.append(Many(c.value, var, base))
+                    elif isinstance(c, One) and isinstance(c.value, ListV) and var is not None:
+                        # a list of rows collected over an opaque iterable: the repetition count is unknown, the
+                        # row layout is not
+                        old.cells.append(Many(c.value, var, base))
                     elif isinstance(c, One):
                         self.env[k] = Unknown('list %s grows inside a loop over %s' % (k, base))
                         break
@@ -669,6 +711,8 @@ class _State(object):
 
 
 def _same(a, b):
+    if isinstance(a, TupleV) and isinstance(b, TupleV):
+        return a == b
     if isinstance(a, ListV) and isinstance(b, ListV):
         return a == b
     if isinstance(a, Sym) and isinstance(b, Sym):
